@@ -31,7 +31,8 @@ def run(rep):
     rep.guard(p10, rep, w)
     rep.guard(c01.r1, rep, w)     # memory safety needs complete tracing: an untraced edge is a use-after-free at the next collection
     import c12
-    rep.guard(c12.h4, rep, w)     # a map borrowed mutably while its key is formatted for the error message: RefCell panic
+    rep.guard(c12.h4, rep, w)
+    rep.guard(c12.h1, rep, w)     # a kind admitted as a key for which Hash for Value has no arm: panic!("Unhashable value type")     # a map borrowed mutably while its key is formatted for the error message: RefCell panic
     import c04_narrow
     rep.guard(c04_narrow.b4, rep, w)   # a truncated jump operand makes the VM execute operand bytes as instructions
     import c17
